@@ -2,6 +2,7 @@ package jd
 
 import (
 	"fmt"
+	"math"
 )
 
 // JsonNode is a JSON value, collection of values, or a void representing
@@ -100,6 +101,9 @@ func NewJsonNode(n interface{}) (JsonNode, error) {
 		}
 		return l, nil
 	case float64:
+		if math.IsNaN(t) || math.IsInf(t, 0) {
+			return nil, fmt.Errorf("unsupported number %v", t)
+		}
 		return jsonNumber(t), nil
 	case int:
 		return jsonNumber(t), nil
